@@ -556,9 +556,16 @@ def build_xlsx(seed: int, feature: str | None = None, twin: bool = False):
         row_off = 1 if (risky == "leading-empty-row" and s == feature_sheet) else 0
         for i in range(rows):
             cells, grow = [], []
+            # a totals row that sums to zero: the last row holds only 0 / 0.0 / FALSE
+            zero_row = i == rows - 1 and rows >= 3 and not (feature and s == feature_sheet) and rng.random() < 0.2
             for j in range(cols):
                 ref = f"{_col(j)}{i + 1 + row_off}"
                 is_feat = feature and s == feature_sheet
+                if zero_row:
+                    z = rng.choice([0, 0.0, False])
+                    cells.append(f'<c r="{ref}" t="b"><v>0</v></c>' if z is False else f'<c r="{ref}"><v>{z!r}</v></c>')
+                    grow.append({"v": z})
+                    continue
                 if i == 0:
                     if is_feat and feature == "typed-first-row" and not twin:
                         v = rng.randint(1, 999)
@@ -600,6 +607,10 @@ def build_xlsx(seed: int, feature: str | None = None, twin: bool = False):
                 elif k < 0.75:
                     v = rng.choice([0.5, 1.25, -3.75, 1234.5, 1e-3, 2.5e10])
                     cells.append(f'<c r="{ref}"><v>{v!r}</v></c>')
+                    grow.append({"v": v})
+                elif k < 0.78:
+                    lit, v = rng.choice([("1E+20", 1e20), ("5E-05", 5e-05), ("1E+3", 1000.0), ("0", 0), ("0.0", 0.0), ("-0", 0)])
+                    cells.append(f'<c r="{ref}"><v>{lit}</v></c>')
                     grow.append({"v": v})
                 elif k < 0.82:
                     v = rng.random() < 0.5
@@ -650,8 +661,17 @@ def build_xlsx(seed: int, feature: str | None = None, twin: bool = False):
                 exp.images.append({"sha": im["sha"], "ctype": im["ctype"], "w": im["w"] or None, "h": im["h"] or None, "unit": s + 1})
             parts[f"xl/drawings/drawing{fno}.xml"] = f'<?xml version="1.0" encoding="UTF-8"?><xdr:wsDr xmlns:xdr="{XDR}" xmlns:a="{A}">{"".join(anchors)}</xdr:wsDr>'.encode()
             parts[f"xl/drawings/_rels/drawing{fno}.xml.rels"] = _rels(drels)
-            parts[f"xl/worksheets/_rels/sheet{fno}.xml.rels"] = _rels([("rIdD", REL_T + "drawing", f"../drawings/drawing{fno}.xml", None)])
-            drawing_xml = '<drawing r:id="rIdD"/>'
+            sheet_rels = [("rIdD", REL_T + "drawing", f"../drawings/drawing{fno}.xml", None)]
+            legacy = ""
+            if rng.random() < 0.4:
+                # a cell comment: comments part + legacy VML drawing; relationship order inside a .rels part carries no meaning
+                parts[f"xl/comments{fno}.xml"] = f'<?xml version="1.0"?><comments xmlns="{S}"><authors><author>a</author></authors><commentList><comment ref="A1" authorId="0"><text><r><t>note</t></r></text></comment></commentList></comments>'.encode()
+                parts[f"xl/drawings/vmlDrawing{fno}.vml"] = b'<xml xmlns:v="urn:schemas-microsoft-com:vml" xmlns:o="urn:schemas-microsoft-com:office:office"><v:shape id="_x0000_s1025" type="#_x0000_t202"/></xml>'
+                vml = [("rIdV", REL_T + "vmlDrawing", f"../drawings/vmlDrawing{fno}.vml", None), ("rIdC", REL_T + "comments", f"../comments{fno}.xml", None)]
+                sheet_rels = vml + sheet_rels if rng.random() < 0.5 else sheet_rels + vml
+                legacy = '<legacyDrawing r:id="rIdV"/>'
+            parts[f"xl/worksheets/_rels/sheet{fno}.xml.rels"] = _rels(sheet_rels)
+            drawing_xml = '<drawing r:id="rIdD"/>' + legacy
         parts[f"xl/worksheets/sheet{fno}.xml"] = (f'<?xml version="1.0" encoding="UTF-8" standalone="yes"?><worksheet xmlns="{S}" xmlns:r="{R_NS}">'
                                                   f'<dimension ref="A1:{_col(cols - 1)}{rows + row_off}"/><sheetData>{"".join(xml_rows)}</sheetData>{drawing_xml}</worksheet>').encode()
         wb_rels.append((f"rIdSh{s + 1}", REL_T + "worksheet", f"worksheets/sheet{fno}.xml", None))
